@@ -698,6 +698,38 @@ def d8_fft_guards(ctx, obs):
     ctx.floor('guards on FFT-computed quantities', n, 2)
 
 
+def d9_constructor_pairing(ctx, obs):
+    """Obs.__init__ stores the replicas under self.names = sorted(names); samples / idl / means arrive in the caller's order.  Whatever
+    walks the caller's lists together with names must keep the pairs together: zip(names, samples, ...) of caller-order lists (sorted as
+    pairs or not), never a sorted list of names zipped with caller-order data."""
+    rule = 'C03-D9'
+    f = obs.func('Obs.__init__')
+    params = {a.arg for a in f.args.args} - {'self'}
+    sorted_names = set()
+    for s_ in walk(f):
+        if isinstance(s_, ast.Assign) and isinstance(s_.value, ast.Call) and call_name(s_.value) == 'sorted' and len(s_.targets) == 1:
+            sorted_names.add(unparse(s_.targets[0]))
+
+    def klass(e):
+        t = unparse(e)
+        if t in sorted_names or (isinstance(e, ast.Call) and call_name(e) == 'sorted'):
+            return 'sorted'
+        roots = {w.id for w in ast.walk(e) if isinstance(w, ast.Name)}
+        if roots & params:
+            return 'caller'
+        return 'other'
+    n = 0
+    for c in walk(f):
+        if isinstance(c, ast.Call) and isinstance(c.func, ast.Name) and c.func.id == 'zip' and len(c.args) >= 2:
+            ks = [klass(a) for a in c.args]
+            n += 1
+            key = 'obs.py:Obs.__init__#pairing[%s]' % unparse(c)[:40]
+            ctx.check(rule, key, not ('sorted' in ks and 'caller' in ks), 'names and data are paired in one order (%s)' % ks,
+                      '`%s` pairs the SORTED names with data in the caller\'s order: when the replicas are not passed in sorted order every replica gets the samples of another one '
+                      '(the configuration lists keep their own pairing, so nothing raises when the lengths agree)' % unparse(c), obs.loc(c))
+    ctx.floor('C03-D9 zip pairings in Obs.__init__', n, 3)
+
+
 def run(ctx):
     ctx.rule('C03-D1', 'gamma_method writes analysis slots only (effects with aliasing, callees included)')
     ctx.rule('C03-D2', 'no stale state: slots reset before use, class defaults read only in _parse_kwarg')
@@ -720,6 +752,8 @@ def run(ctx):
     ctx.guarded('C03-D5', 'obs.py@read-set', d5_readset, ctx, obs)
     ctx.guarded('C03-D5', 'obs.py@fresh-results', d5b_fresh_results, ctx, obs)
     ctx.guarded('C03-D6', 'obs.py@bounds', d6_bounds, ctx, obs)
+    ctx.rule('C03-D9', 'the constructor pairs names with samples / idl / means in one order (replica order invariance)')
+    ctx.guarded('C03-D9', 'obs.py:Obs.__init__@pairing', d9_constructor_pairing, ctx, obs)
     ctx.rule('C03-D8', 'FFT path = direct path: guards on FFT-computed quantities are inequalities; padding, lag range and pairing of _calc_gamma (shared analysis with C02-D4)')
     ctx.guarded('C03-D8', 'obs.py@fft-guards', d8_fft_guards, ctx, obs)
     ctx.guarded('C03-D8', 'obs.py:Obs._calc_gamma@fft-vs-direct', C02.calc_gamma, ctx, obs, 'C03-D8')
